@@ -316,7 +316,10 @@ def report(prop, results, ledger, tier, seed, t_start, only_mode=False):
     for name, why in unsupported.items():
         r = next(x for x in results if x['name'] == name)
         try:
-            cc = native(['crosscheck', r['module'], '300' if tier == 'quick' else '3000', str(seed), name], timeout=3600)
+            # contracts that fell outside the verifier by accident (a changed tree) get a longer native search than
+            # the ones that are bounded by design and evaluated on every run
+            n_search = ('300' if tier == 'quick' else '3000') if r.get('bounded_by_design') else ('1500' if tier == 'quick' else '6000')
+            cc = native(['crosscheck', r['module'], n_search, str(seed), name], timeout=3600)
             st = cc.get(name, {})
             bounded.append({'what': name, 'why_not_proved': why[:300], 'evaluations': st.get('pre_ok', 0),
                             'failures': len(st.get('failures', []))})
